@@ -84,4 +84,39 @@ browser turns back into `plain` -/
 def escapedFor (plain text : Bytes) : Bool :=
   noMarkup text && ampsOk text && unescape text == plain
 
+/-! ### attribute values
+
+The listing puts the link target into a **single-quoted** attribute: `<a href='…'>`.  A value is
+safe there when no byte can end the attribute (`'`), none can open or close markup or the other
+quoting (`<`, `>`, `"`), and none starts a character reference (`&`). -/
+
+def attrSafe (s : Bytes) : Bool := s.all fun c => c != 39 && c != 34 && c != 60 && c != 62 && c != 38
+
+def anchorOpen : Bytes := [60,97,32,104,114,101,102,61,39]   -- <a href='
+def anchorMid : Bytes := [39,62]                              -- '>
+def anchorClose : Bytes := [60,47,97,62]                      -- </a>
+
+/-- read an anchor the way an HTML parser does: the attribute value runs to the first `'`, which must
+be followed by `>`; the text runs to the closing tag.  `some (href, text)` when it has that shape. -/
+def parseAnchor (raw : Bytes) : Option (Bytes × Bytes) :=
+  if anchorOpen.isPrefixOf raw then
+    let r1 := raw.drop anchorOpen.length
+    let h := r1.takeWhile (· != 39)
+    let r2 := r1.drop h.length
+    if anchorMid.isPrefixOf r2 then
+      let r3 := r2.drop anchorMid.length
+      if r3.length ≥ anchorClose.length && r3.drop (r3.length - anchorClose.length) == anchorClose then
+        some (h, r3.take (r3.length - anchorClose.length))
+      else none
+    else none
+  else none
+
+/-- a listing row is well-formed for the directory entries `names`: it parses as one anchor, the
+attribute value is safe, and the text is the escaped name (plus `/`) of an entry not starting with `.` -/
+def rowOk (names : List Bytes) (raw : Bytes) : Bool :=
+  match parseAnchor raw with
+  | none => false
+  | some (h, t) =>
+    attrSafe h && names.any fun n => n.head? != some 46 && (escapedFor n t || escapedFor (n ++ [47]) t)
+
 end Cppcms.C13.Spec
